@@ -341,8 +341,8 @@ def _check_predict(ctx, f):
                       f"one fold from '{lname}'", why, node=loop)
         # both lists are created as one empty list per fold and filled per
         # enumerate index of the same fold slices
-        fill_s = _filled_by(f, du, T, sname)
-        fill_t = _filled_by(f, du, T, tname)
+        fill_s = _filled_by(f, du, T, sname, prog)
+        fill_t = _filled_by(f, du, T, tname, prog)
         ctx.check(fill_s is not None and fill_t is not None
                   and fill_s == fill_t, "C11b-lockstep", f,
                   "per-fold score list and per-fold target list are filled "
@@ -496,36 +496,46 @@ def _no_narrowing(ctx, f, T):
               node=bad[0][0] if bad else f.node)
 
 
-def _filled_by(f, du, T, lname):
-    """What is appended to per-fold list ``lname``: (term of the enumerated
-    list of fold slices, 'enumerate') when slot idx(S) receives a value
-    computed from elem(S) - directly or through a predict_fold task."""
-    for n in ast.walk(f.node):
-        if not isinstance(n, ast.Call):
+def _filled_by(f, du, T, lname, prog=None):
+    """What is appended to per-fold list ``lname``: (term of the list of
+    fold slices, 'aligned') when slot k of the list receives a value
+    computed from slice k - directly (any spelling of "the same position":
+    enumerate index, zip of the two lists) or through a predict_fold
+    task."""
+    from ..cfg import CFG
+    from ..events import container_events, root_name
+    from ..tutil import POS, align_positions, bound_args
+    cfg = CFG(f.node)
+    # direct: lname[k].append(g(slices[k]))
+    for e in container_events(f.node, T, cfg):
+        if e.kind != "append" or len(e.args) != 1 or \
+                root_name(e.recv) != lname:
             continue
-        # direct: lname[i].append(g(x)) for i, x in enumerate(S)
-        if isinstance(n.func, ast.Attribute) and n.func.attr == "append" \
-                and isinstance(n.func.value, ast.Subscript) and isinstance(
-                    n.func.value.value, ast.Name) and \
-                n.func.value.value.id == lname and len(n.args) == 1:
-            it = T.of(n.func.value.slice)
-            vt = T.of(n.args[0])
-            if it[0] == "idx" and any(x == ("elem", it[1])
-                                      for x in walk_term(vt)):
-                return (it[1], "enumerate")
+        recv = align_positions(e.recv)
+        val = align_positions(e.args[0])
+        if recv[0] == "sub" and recv[2] == POS and \
+                root_name(recv[1]) == lname:
+            srcs = [x[1] for x in walk_term(val) if isinstance(x, tuple)
+                    and x[:1] == ("sub",) and len(x) == 3 and x[2] == POS]
+            srcs = [x for x in srcs if root_name(x) != lname]
+            if len({tkey(x) for x in srcs}) == 1:
+                return (srcs[0], "aligned")
+        return None
+    # through predict_fold(model=.., fold=k, psms=slices[k], scores=lname)
+    if prog is not None:
+        from ..proto import Calls
+        for t, n in Calls(prog, f, T=T, cfg=cfg).calls(
+                "mokapot.brew.predict_fold"):
+            b = bound_args(prog, t) or {}
+            ab = prog.bind(prog.func("mokapot.brew.predict_fold"), n)
+            sc = ab.get("scores")
+            if not (isinstance(sc, ast.Name) and sc.id == lname):
+                continue
+            fold = align_positions(b.get("fold", ("x",)))
+            ps = align_positions(b.get("psms", ("x",)))
+            if fold == POS and ps[0] == "sub" and ps[2] == POS:
+                return (ps[1], "aligned")
             return None
-        # through predict_fold(model=.., fold=i, psms=x, scores=lname)
-        if isinstance(n.func, ast.Call) and \
-                ast.unparse(n.func.func) == "delayed":
-            kws = {k.arg: k.value for k in n.keywords}
-            if "scores" in kws and isinstance(kws["scores"], ast.Name) and \
-                    kws["scores"].id == lname and "fold" in kws and \
-                    "psms" in kws:
-                it = T.of(kws["fold"])
-                vt = T.of(kws["psms"])
-                if it[0] == "idx" and vt == ("elem", it[1]):
-                    return (it[1], "enumerate")
-                return None
     return None
 
 
